@@ -5,7 +5,7 @@ import re
 import z3
 
 from props.common import *
-from props.env import install_env, path_id
+from props.env import install_env, path_id, fs_fact
 
 KINDS = ["File", "Dir", "Symlink", "Socket", "Fifo", "Char", "Block", "Other"]
 
@@ -213,8 +213,11 @@ def install_walker_env(ctx, eng, nsources=1):
     def s_lstat(eng, st, callee, args, dty):
         p = pexpr(eng, st, args[0])
         m = OpaqueV("std::fs::Metadata", "lstat:" + repr(p), {"of": p})
-        return [Outcome(ok(m), events=[Event("symlink_metadata", [p], "ok")]),
+        tie(st, p)
+        return [Outcome(ok(m), [wfact("lexists", p)], events=[Event("symlink_metadata", [p], "ok")]),
                 Outcome(err("std::io::Error"), events=[Event("symlink_metadata", [p], "err")])]
+    for nm in ("is_file", "is_dir", "is_symlink"):
+        front(r"^(std::fs::)?Metadata::%s$" % nm, (lambda nm: lambda e, st, c, a, d: Outcome(BoolV(wfact("lstat_" + nm, deref_ref(e, st, a[0]).attrs.get("of")))))(nm))
     front(r"^(std::path::)?Path::symlink_metadata$", s_lstat)
     front(r"^(std::fs::)?Metadata::file_type$", lambda e, st, c, a, d: Outcome(OpaqueV("std::fs::FileType", None, {"of": deref_ref(e, st, a[0]).attrs.get("of")})))
 
@@ -243,14 +246,23 @@ def install_walker_env(ctx, eng, nsources=1):
                 Outcome(err("std::io::Error"), events=[Event("create_dir_all", [p], "err")])]
     front(r"^(std::fs::)?create_dir_all::<", s_mkdir)
 
+    def wfact(name, p):
+        return fs_fact(name, repr(p))
+
+    def tie(st, p):
+        tied = st.ghost.setdefault("fs_tied", set())
+        if repr(p) not in tied:
+            tied.add(repr(p))
+            st.pc += [z3.Implies(wfact("is_dir", p), wfact("exists", p)), z3.Implies(wfact("exists", p), wfact("lexists", p)),
+                      z3.Implies(wfact("lstat_is_file", p), wfact("lexists", p)), z3.Implies(wfact("lstat_is_dir", p), wfact("lexists", p))]
+
     def s_exists(name):
         def h(eng, st, callee, args, dty):
             p = pexpr(eng, st, args[0])
+            tie(st, p)
             fsm = st.ghost.setdefault("fs", {})
-            key = (name, repr(p))
-            if key not in fsm:
-                fsm[key] = z3.Bool("%s_%s_%d" % (name, re.sub(r"\W+", "_", repr(p))[:40], next(eng.fresh_ids)))
-            return Outcome(BoolV(fsm[key]), events=[Event("Path::" + name, [p], BoolV(fsm[key]))])
+            fsm[(name, repr(p))] = wfact(name, p)
+            return Outcome(BoolV(wfact(name, p)), events=[Event("Path::" + name, [p], BoolV(wfact(name, p)))])
         return h
     front(r"^(std::path::)?Path::exists$", s_exists("exists"))
     front(r"^(std::path::)?Path::is_dir$", s_exists("is_dir"))
@@ -285,9 +297,9 @@ def _find_pred(eng, st):
 
 def expected_target(eng, p, src_expr, rel_expr, cv, fsm):
     """cp's mapping rule as a list of (condition, expected target expr)"""
-    ex = fsm.get(("exists", repr(("dest",))))
-    isd = fsm.get(("is_dir", repr(("dest",))))
-    into = z3.And(ex if ex is not None else z3.BoolVal(False), isd if isd is not None else z3.BoolVal(False), z3.Not(cv["no_target_directory"].t))
+    ex = fs_fact("exists", repr(("dest",)))
+    isd = fs_fact("is_dir", repr(("dest",)))
+    into = z3.And(ex, isd, z3.Not(cv["no_target_directory"].t))
     b_in = ("join", ("dest",), ("last", src_expr))
     b_self = ("dest",)
     t_in = b_in if rel_expr == ("empty",) else ("join", b_in, rel_expr)
@@ -426,9 +438,15 @@ def lemma_tree_walker(ctx):
             if kind[0].args[0] != frm_expected:
                 ctx.fail("C02/C13: the entry is classified by lstat of the (resolved) walked path", repr(kind[0].args))
             any_action = ops or mk
-            if any_action and collided is not None:
-                ctx.lemma(eng, "C08: under no-clobber nothing is queued or created onto an existing destination entry", p.pc, z3.Not(collided))
-            elif any_action:
+            if any_action:
+                # the fact that matters is "something exists at the mapped target", whichever probe the code uses
+                tgt = mk[0].args[0] if mk else pexpr(eng, p, ops[0].args[0].fields[1])
+                exists_t = fs_fact("exists", repr(tgt))
+                ax = [z3.Implies(fs_fact("is_dir", repr(tgt)), exists_t), z3.Implies(exists_t, fs_fact("lexists", repr(tgt))),
+                      z3.Implies(fs_fact("lstat_is_file", repr(tgt)), fs_fact("lexists", repr(tgt)))]
+                ctx.lemma(eng, "C08: under no-clobber nothing is queued or created onto an existing destination entry", p.pc + ax,
+                          z3.Implies(noclob, z3.Not(exists_t)), info={"target": repr(tgt)})
+            if any_action and collided is None:
                 ctx.lemma(eng, "C08: under no-clobber every entry is probed before it is acted upon", p.pc, z3.Not(noclob))
             if any(is_errev(e) for e in sev):
                 continue
